@@ -31,6 +31,7 @@ import dbengine as E
 import dbgen
 
 M64 = (1 << 64) - 1
+TTL = [60]           # nodeHostTTL, read from the code by the executor
 MUT = ("SC", "SCNIL", "SR", "SRNIL", "SB", "SD", "RP", "T", "Q")
 CONFIG = ("SC", "SCNIL", "SR", "SRNIL", "SB", "SD")
 CODE = {0: 0, 4: 1, 5: 2}
@@ -677,6 +678,16 @@ def query_vs_ctx(op, line, c):
             leaders = [int(x) for x, y in (v.get("Replicas") or {}).items() if y.get("IsLeader")]
             if len(leaders) <= 1 and E.i_(s.get("leaderReplicaId")) != (leaders[0] if leaders else 0):
                 return "GetShardStates(%s).leaderReplicaId %s, the DB view's leader is %s" % (sid_, s.get("leaderReplicaId"), leaders)
+            now, nok = E.i_(c.get("Tick")), 0
+            for y in (v.get("Replicas") or {}).values():
+                t, fo = E.i_(y.get("Tick")), E.i_(y.get("FirstObserved"))
+                failed = (fo == 0) if t == 0 else (now - t > TTL[0])
+                if not failed and t != 0:
+                    nok += 1
+            unavailable = nok < len(vre) // 2 + 1
+            if (s.get("state") in ("UNAVAILABLE", 1)) != unavailable:
+                return "GetShardStates(%s).state is %s; in the DB view %d of %d members reported within the last %d s (tick %d)" % (
+                    sid_, s.get("state"), nok, len(vre), TTL[0], now)
             rpcs = {int(x): y for x, y in (s.get("RPCAddresses") or {}).items()}
             want = {rid: ((hosts.get(ad) or {}).get("RPCAddress") or "") for rid, ad in vre.items()}
             if rpcs != want:
@@ -760,6 +771,7 @@ def run(ck):
             return
     timing["executor"] = round(time.time() - t0, 1)
     ck.cov["params"] = params
+    TTL[0] = params[0]
     # ---- monitors
     stats = {"calls": 0, "malformed": 0, "reports": 0, "reports_with_requests": 0, "restarts": 0, "died": 0}
     allfails = []
@@ -770,7 +782,7 @@ def run(ck):
             allfails.append((i, len(ops), mon, what, name, ops, ans, mode))
         for i, op in enumerate(ops):
             if i in ans:
-                ck.count_case("%s %s" % (op_line(op), ans[i][0][:3000]))
+                ck.count_case("%s %s" % (op_line(op), canon(op, ans[i][0])[1] if op[0] not in ("RESTART", "KILL") else ans[i][0]))
     stats["malformed_kinds"] = sorted(stats.get("malformed_kinds", []))
     ck.cov["stats"] = stats
     ck.cov["sequences"] = len(cases)
@@ -778,11 +790,11 @@ def run(ck):
     allfails.sort(key=lambda x: (x[0] // 4, x[7] != "dir", x[0], x[1]))
     seen = set()
     for (i, _, mon, what, name, ops, ans, mode) in allfails:
-        cls = mon + ":" + re.sub(r"\d+", "N", what)[:48]
-        if cls in seen:
+        cls = mon + ":" + re.sub(r"[^A-Za-z]+", " ", what)[:36]
+        if cls in seen or sum(1 for x in seen if x.startswith(mon + ":")) >= 2:
             continue
         seen.add(cls)
-        rp = replay_of(name, ops, ans, min(i + 3, len(ops) - 1), mode)
+        rp = replay_of(name, ops, ans, min(i + 3, len(ops) - 1) if mon == "refused" else i, mode)
         rp["kind"] = "monitor:" + mon
         rp["failing_call"] = "%d. %s" % (i, op_human(ops[i]))
         rp["failures_of_this_kind_in_this_run"] = sum(1 for x in allfails if x[2] == mon)
@@ -874,7 +886,9 @@ def run(ck):
         if died and not any("replica died" in v[0] for v in ck.violations):
             ck.violation("the DB replica died while serving %s; the model of the (repaired) service says it survives" % op_human(ops[i]), rp)
         elif not ck.violations:
-            ck.violation("the answer of %s differs from the model's (%d disagreements in this run)" % (op_human(ops[i]), len(mism)), rp)
+            # no python monitor failed: a broken correspondence (the replay still names the call whose answer differs)
+            ck.violation("the answer of %s differs from the model's (%d disagreements in this run) but no property monitor failed" % (
+                op_human(ops[i]), len(mism)), rp, found_input=False)
 
 
 def tuple_op(o):
